@@ -161,7 +161,7 @@ def larger_configs(tier):
         # one decoder object in service for a very long time (tens of thousands
         # of tie-breaks): a resource that runs out must not make later decodes fail
         cfgs.append({'decoder': 'SweepMatchDecoder', 'code': 'Toric3DCode', 'size': [3, 3, 3],
-                     'noise': 'Z', 'p': 0.5, '_calls': 20000})
+                     'noise': 'Z', 'p': 0.5, '_calls': 24000})
         cfgs.append({'decoder': 'RotatedSweepMatchDecoder', 'code': 'RotatedPlanar3DCode', 'size': [3, 3, 2],
                      'noise': 'Z', 'p': 0.3, '_calls': 6000})
     for c in cfgs:
@@ -203,7 +203,7 @@ def drive(cfg):
         for s in syns:                      # interleave with repeats and zeros
             seq.append(s)
             r = rng.random()
-            seq.append(np.zeros(m, dtype=np.uint8) if r < 0.3 else pool[int(rng.integers(len(pool)))])
+            seq.append(np.zeros(m, dtype=np.uint8) if r < (0.05 if calls else 0.3) else pool[int(rng.integers(len(pool)))])
         distinct = {s.tobytes(): s for s in seq}
         mode = f'random history of {len(seq)} calls'
     else:
